@@ -18,6 +18,7 @@ type Query struct {
 	Assumes []*Term
 	Goal    *Term
 	Values  []*Term // terms whose model value is requested when the answer is sat
+	Cheap   bool    // obligation kinds for which a satisfiable quantifier-free relaxation ends the attempt
 }
 
 const maxQueryNodes = 400000
@@ -179,7 +180,50 @@ func runSolver(sp solverSpec, text string, dir string, tag string, timeoutMs int
 var solveSeq int64
 
 // Solve runs the portfolio. unsat from any solver proves; sat needs a model from the same solver.
+func hasQuant(t *Term, memo map[*Term]bool) bool {
+	if v, ok := memo[t]; ok {
+		return v
+	}
+	r := t.Op == "forall" || t.Op == "exists"
+	for _, a := range t.Args {
+		if r {
+			break
+		}
+		if hasQuant(a, memo) {
+			r = true
+		}
+	}
+	memo[t] = r
+	return r
+}
+
 func (q *Query) Solve(dir, tag string, timeoutMs int) *SolveResult {
+	// stage 1: drop quantified assumptions (sound for unsat; a sat answer is inconclusive)
+	memo := map[*Term]bool{}
+	nq := 0
+	var qf []*Term
+	for _, a := range q.Assumes {
+		if hasQuant(a, memo) {
+			nq++
+		} else {
+			qf = append(qf, a)
+		}
+	}
+	stage1Sat := false
+	if nq > 0 && !hasQuant(q.Goal, memo) {
+		q1 := &Query{Assumes: qf, Goal: q.Goal}
+		if text, ok := q1.smtText(false, ""); ok {
+			to := timeoutMs / 4
+			if to < 1000 {
+				to = 1000
+			}
+			st, out, ms := runSolver(solvers[0], text, dir, tag+".qf", to)
+			if st == "unsat" {
+				return &SolveResult{Status: "unsat", Solver: solvers[0].name + "(qf)", Output: out, Ms: ms, Tried: []string{solvers[0].name + "(qf):unsat"}, SMTText: text}
+			}
+			stage1Sat = st == "sat"
+		}
+	}
 	res := &SolveResult{}
 	text, ok := q.smtText(false, "")
 	if !ok {
@@ -188,52 +232,53 @@ func (q *Query) Solve(dir, tag string, timeoutMs int) *SolveResult {
 		return res
 	}
 	res.SMTText = text
+	if q.Cheap && stage1Sat {
+		res.Status = "unknown"
+		res.Output = "quantifier-free relaxation is satisfiable; full query skipped for this obligation kind"
+		return res
+	}
 	t0 := time.Now()
-	for i, sp := range solvers {
-		to := timeoutMs
-		if i == 0 && len(solvers) > 1 {
-			// first try is short; fall through to the others, then return with the full budget
-			to = timeoutMs / 2
-			if to < 1000 {
-				to = timeoutMs
-			}
-		}
-		st, out, _ := runSolver(sp, text, dir, tag, to)
-		res.Tried = append(res.Tried, sp.name+":"+st)
-		if st == "unsat" {
-			res.Status, res.Solver, res.Output = "unsat", sp.name, out
-			res.Ms = time.Since(t0).Milliseconds()
-			return res
-		}
+	finish := func(sp solverSpec, st, out string) *SolveResult {
+		res.Status, res.Solver, res.Output = st, sp.name, out
 		if st == "sat" {
-			res.Status, res.Solver = "sat", sp.name
 			vt, _ := q.smtText(true, "")
 			_, vout, _ := runSolver(sp, vt, dir, tag+".m", timeoutMs)
 			res.Output = vout
 			res.Model = parseValues(vout)
-			res.Ms = time.Since(t0).Milliseconds()
-			return res
 		}
-		res.Output += sp.name + ": " + firstLines(out, 3) + "\n"
+		res.Ms = time.Since(t0).Milliseconds()
+		return res
 	}
-	// last resort: first solver again with the full budget
-	if len(solvers) > 1 {
-		st, out, _ := runSolver(solvers[0], text, dir, tag, timeoutMs)
-		res.Tried = append(res.Tried, solvers[0].name+"(full):"+st)
-		if st == "unsat" {
-			res.Status, res.Solver, res.Output = "unsat", solvers[0].name, out
-			res.Ms = time.Since(t0).Milliseconds()
-			return res
+	st, out, _ := runSolver(solvers[0], text, dir, tag, timeoutMs)
+	res.Tried = append(res.Tried, solvers[0].name+":"+st)
+	if st == "unsat" || st == "sat" {
+		return finish(solvers[0], st, out)
+	}
+	res.Output += solvers[0].name + ": " + firstLines(out, 3) + "\n"
+	type ans struct {
+		sp      solverSpec
+		st, out string
+	}
+	ch := make(chan ans, len(solvers))
+	for _, sp := range solvers[1:] {
+		go func(sp solverSpec) {
+			st, out, _ := runSolver(sp, text, dir, tag, timeoutMs)
+			ch <- ans{sp, st, out}
+		}(sp)
+	}
+	var got *ans
+	for range solvers[1:] {
+		a := <-ch
+		res.Tried = append(res.Tried, a.sp.name+":"+a.st)
+		if (a.st == "unsat" || a.st == "sat") && got == nil {
+			aa := a
+			got = &aa
+		} else {
+			res.Output += a.sp.name + ": " + firstLines(a.out, 3) + "\n"
 		}
-		if st == "sat" {
-			res.Status, res.Solver = "sat", solvers[0].name
-			vt, _ := q.smtText(true, "")
-			_, vout, _ := runSolver(solvers[0], vt, dir, tag+".m", timeoutMs)
-			res.Output = vout
-			res.Model = parseValues(vout)
-			res.Ms = time.Since(t0).Milliseconds()
-			return res
-		}
+	}
+	if got != nil {
+		return finish(got.sp, got.st, got.out)
 	}
 	res.Status = "unknown"
 	res.Ms = time.Since(t0).Milliseconds()
